@@ -4,7 +4,7 @@
    gen_table_ok in the generated file), so that they apply to every generated type. *)
 From DV Require Import Base.Prelude Model.NameM Model.SchemaM Proofs.SchemaCodec Proofs.SchemaThm Proofs.SchemaFix Proofs.SchemaTable Proofs.SchemaOrigin.
 From DV Require Proofs.NameValid Proofs.SchemaExamples.
-From DV Require Import Model.DispatchM Proofs.SchemaDispatch Model.SchemaHand Proofs.SchemaHandThm Proofs.SchemaTotal Proofs.SchemaReenc Proofs.SchemaOptFix Proofs.SchemaAplFix Proofs.SchemaLocFix Proofs.SchemaSvcbFix Proofs.SchemaOriginFix.
+From DV Require Import Model.DispatchM Proofs.SchemaDispatch Model.SchemaHand Proofs.SchemaHandThm Proofs.SchemaTotal Proofs.SchemaReenc Proofs.SchemaOptFix Proofs.SchemaAplFix Proofs.SchemaLocFix Proofs.SchemaSvcbFix Proofs.SchemaOriginFix Proofs.SchemaHandOrigin.
 Open Scope Z_scope.
 
 (* from_wire(to_wire(x)) = x for every well-formed schema and every value the constructor
@@ -205,6 +205,36 @@ Theorem opt_roundtrip : forall vs b A P,
   hand_decode_rdata HOpt None (A ++ b ++ P) (length A) (length b) = Ok vs.
 Proof. exact opt_roundtrip_thm. Qed.
 Print Assumptions opt_roundtrip.
+
+(* the hand codecs that carry names, with an absolute origin (same name condition nok_origin as for
+   the schema types) *)
+Theorem hip_roundtrip_origin : forall o vs b A P,
+  is_absolute o = true -> hip_nok (nok_origin o) vs ->
+  hand_encode_rdata HHip (Some o) vs = Ok b ->
+  hand_decode_rdata HHip (Some o) (A ++ b ++ P) (length A) (length b) = Ok vs.
+Proof. exact hip_roundtrip_origin_thm. Qed.
+Print Assumptions hip_roundtrip_origin.
+
+Theorem ipseckey_roundtrip_origin : forall o vs b A P,
+  is_absolute o = true -> ipseckey_nok (nok_origin o) vs ->
+  hand_encode_rdata HIpseckey (Some o) vs = Ok b ->
+  hand_decode_rdata HIpseckey (Some o) (A ++ b ++ P) (length A) (length b) = Ok vs.
+Proof. exact ipseckey_roundtrip_origin_thm. Qed.
+Print Assumptions ipseckey_roundtrip_origin.
+
+Theorem amtrelay_roundtrip_origin : forall o vs b A P,
+  is_absolute o = true -> amtrelay_nok (nok_origin o) vs ->
+  hand_encode_rdata HAmtrelay (Some o) vs = Ok b ->
+  hand_decode_rdata HAmtrelay (Some o) (A ++ b ++ P) (length A) (length b) = Ok vs.
+Proof. exact amtrelay_roundtrip_origin_thm. Qed.
+Print Assumptions amtrelay_roundtrip_origin.
+
+Theorem svcb_roundtrip_origin : forall o prio target ps b A P,
+  is_absolute o = true -> nok_origin o true target -> (prio <> 0 \/ ps = []) ->
+  hand_encode_rdata HSvcb (Some o) [VS (VI prio); VS (VN target); VL ps] = Ok b ->
+  hand_decode_rdata HSvcb (Some o) (A ++ b ++ P) (length A) (length b) = Ok [VS (VI prio); VS (VN target); VL ps].
+Proof. exact svcb_roundtrip_origin_thm. Qed.
+Print Assumptions svcb_roundtrip_origin.
 
 (* second half of the property for hand-modelled codecs without normalisation: an accepted octet
    string yields a record whose own encoding exists and decodes to the same record *)
